@@ -63,6 +63,7 @@ type JWKSCache struct {
 	client  *http.Client
 	running atomic.Bool
 	initCh  chan error
+	initErr error
 }
 
 // NewJWKSCache creates a new JWKSCache object.
@@ -81,17 +82,17 @@ func NewJWKSCache(location string, logger logger.Logger) *JWKSCache {
 // Start the JWKS cache.
 // This method blocks until the context is canceled.
 func (c *JWKSCache) Start(ctx context.Context) error {
+	// A cache can be started only once (initCh is closed by the first Start), so running is never reset.
 	if !c.running.CompareAndSwap(false, true) {
 		return errors.New("cache is already running")
 	}
-	defer c.running.Store(false)
 
 	// Init the cache
 	err := c.initCache(ctx)
 	if err != nil {
 		err = fmt.Errorf("failed to init cache: %w", err)
-		// Store the error in the initCh, then close it
-		c.initCh <- err
+		// Keep the error for every call to WaitForCacheReady, then close initCh
+		c.initErr = err
 		close(c.initCh)
 		return err
 	}
@@ -140,8 +141,9 @@ func (c *JWKSCache) WaitForCacheReady(ctx context.Context) error {
 	select {
 	case <-ctx.Done():
 		return ctx.Err()
-	case err := <-c.initCh:
-		return err
+	case <-c.initCh:
+		// initErr is written before initCh is closed
+		return c.initErr
 	}
 }
 
